@@ -1,4 +1,5 @@
 import Momo.Proof.ProbeAdd
+import Momo.Proof.TrEqProbe
 /-!
 # C13 — Open-addressing lookups examine every slot where the key can be
 
@@ -121,5 +122,43 @@ example : ([300, 7, 100000].foldl MP2.upd MP2.init).dec = 100352 := by decide
 example : getMax3 20 ([5, 9, 1000].foldl upd3 0) = 1024 := by decide
 example : addProbe true 2 (fun i => i != 0) 1 = some (2, 0) := by decide
 example : addProbe false 2 (fun _ => true) 1 = none := by decide
+
+/-! ### The code itself, not only the hand-written model (T1b)
+
+`Momo.Tr.*` are Lean definitions regenerated on every check by tools/translate.py from the *function bodies* in the
+current headers (C++ integer semantics explicit: wrap-around of `size_t`, promotion and truncation of the byte fields,
+the `while` loop). The theorems below are about those generated definitions. -/
+/-- **C13 (a) for the code as translated from the header**: after any sequence of
+`BucketOpen2N2::UpdateMaxProbe` calls (from the cleared state, any item-count bits `c`) with probes that are
+displacements of a table (≤ 2^63), `pvGetMaxProbe` of the resulting bytes is ≥ every probe recorded. -/
+theorem C13_bound_open2n2_translated (c : Nat) (hc : c < 4) (ps : List Nat) (h : ∀ p ∈ ps, p ≤ 2 ^ 63) :
+    ∀ p ∈ ps, p ≤ Tr.open2n2_pvGetMaxProbe (TrEq.runOpen2N2 c ps).1 (TrEq.runOpen2N2 c ps).2 := by
+  intro p hp
+  obtain ⟨r1, r2, _, r4⟩ := TrEq.runOpen2N2_rel c hc ps h
+  have hb := C13_bound_open2n2 ps (fun q hq => by have := h q hq; omega) p hp
+  rw [TrEq.tr_open2n2_getMaxProbe _ _ r4.dec_lt]
+  have hsh : (TrEq.runOpen2N2 c ps).2 >>> 2 = (TrEq.runOpen2N2 c ps).2 / 4 := by rw [Nat.shiftRight_eq_div_pow]
+  rw [hsh]
+  simp only [MP2.dec] at hb ⊢
+  rw [r1, r2]; exact hb
+
+
+/-- **C13 (a) for `BucketOpenN1` / `BucketOpen8` as translated from the header**: in a table of `2^L` buckets
+(`L < 64`), after any sequence of `UpdateMaxProbe` calls with displacements `< 2^L`, `GetMaxProbe(L)` of the
+resulting byte is ≥ every displacement recorded (255 = unbounded included). -/
+theorem C13_bound_openN1_translated (L : Nat) (hL : L < 64) (ps : List Nat) (h : ∀ p ∈ ps, p < 2 ^ L) :
+    ∀ p ∈ ps, p ≤ Tr.openN1_GetMaxProbe (TrEq.runOpenN1 ps) L := by
+  intro p hp
+  have h64 : ∀ q ∈ ps, q < 2 ^ 64 := fun q hq =>
+    Nat.lt_of_lt_of_le (h q hq) (Nat.pow_le_pow_right (by decide) (by omega))
+  obtain ⟨e, hlt⟩ := TrEq.runOpenN1_eq ps h64
+  rw [TrEq.tr_openN1_getMaxProbe L _ hL hlt, e]
+  exact C13_bound_openN1 L (by omega) ps h p hp
+
+
+
+/-- non-vacuity: the translated code run on a concrete sequence (rounded bound 132096 covers 131073) -/
+example : Tr.open2n2_pvGetMaxProbe (TrEq.runOpen2N2 1 [3, 300, 131073, 7]).1 (TrEq.runOpen2N2 1 [3, 300, 131073, 7]).2 = 132096 := by decide
+example : Tr.openN1_GetMaxProbe (TrEq.runOpenN1 [3, 300, 9]) 10 = 320 := by decide
 
 end Momo.Probe
